@@ -12,6 +12,8 @@
 //	                       -> _tok := simrt.BeforeBlock(); stmt; simrt.AfterBlock(_tok)
 //	for range ch           -> annotated likewise (receive at loop head)
 //	time.Sleep(d)          -> simrt.Sleep(d)
+//	time.AfterFunc(d, f)   -> simrt.TimeAfterFunc(d, f)      (the callback runs as a task)
+//	context.AfterFunc(c,f) -> simrt.ContextAfterFunc(c, f)   (likewise)
 //
 // Usage: instrument <dir>...   (rewrites in place, prints one line per site)
 package main
@@ -65,6 +67,7 @@ type rewriter struct {
 	file      *ast.File
 	path      string
 	needSimrt bool
+	ctxName  string
 	timeName  string // local name of package "time" ("" if not imported)
 	tmp       int
 }
@@ -113,6 +116,11 @@ func rewriteFile(path string) error {
 			if imp.Name != nil {
 				r.timeName = imp.Name.Name
 			}
+		case "context":
+			r.ctxName = "context"
+			if imp.Name != nil {
+				r.ctxName = imp.Name.Name
+			}
 		}
 	}
 	// statement-level rewrites
@@ -125,15 +133,21 @@ func rewriteFile(path string) error {
 		case *ast.CommClause:
 			b.Body = r.rewriteList(b.Body)
 		case *ast.CallExpr:
-			if sel, ok := b.Fun.(*ast.SelectorExpr); ok && r.timeName != "" {
-				if id, ok := sel.X.(*ast.Ident); ok && id.Name == r.timeName && id.Obj == nil {
-					switch sel.Sel.Name {
-					case "Sleep":
+			if sel, ok := b.Fun.(*ast.SelectorExpr); ok {
+				if id, ok := sel.X.(*ast.Ident); ok && id.Obj == nil {
+					switch {
+					case r.timeName != "" && id.Name == r.timeName && sel.Sel.Name == "Sleep":
 						id.Name = "simrt"
 						r.needSimrt = true
 						r.note(b.Pos(), "time.Sleep")
-					case "AfterFunc":
-						r.warn(b.Pos(), "time.AfterFunc callback runs outside the simulator")
+					case r.timeName != "" && id.Name == r.timeName && sel.Sel.Name == "AfterFunc":
+						id.Name, sel.Sel.Name = "simrt", "TimeAfterFunc"
+						r.needSimrt = true
+						r.note(b.Pos(), "time.AfterFunc")
+					case r.ctxName != "" && id.Name == r.ctxName && sel.Sel.Name == "AfterFunc":
+						id.Name, sel.Sel.Name = "simrt", "ContextAfterFunc"
+						r.needSimrt = true
+						r.note(b.Pos(), "context.AfterFunc")
 					}
 				}
 			}
@@ -150,6 +164,9 @@ func rewriteFile(path string) error {
 	// the "time" import may have become unused
 	if r.timeName != "" && !usesPkg(f, r.timeName) {
 		dropImport(f, "time")
+	}
+	if r.ctxName != "" && !usesPkg(f, r.ctxName) {
+		dropImport(f, "context")
 	}
 	// Free-floating comments end up in odd places after the rewrite; keep only build
 	// constraints (before the package clause) and compiler directives.
